@@ -99,6 +99,8 @@ Section Safe.
     NoDup todo /\
     (forall k', In k' todo -> ~ In k' (t_reg s) /\ ~ In k' (t_sent s) /\ ~ In k' (t_failed s) /\ ~ In k' (t_clean s)).
 
+  (* 1 while the reader holds a response it has not looked up yet *)
+  Definition hand (rpc : nat) : nat := if ((1 <=? rpc) && (rpc <=? 3))%nat then 1%nat else 0%nat.
   Definition RF (s : tstate) (rpc : nat) (held : option nat) (found : option Z) : Prop :=
     (rpc <= 6)%nat /\
     ((1 <= rpc <= 3)%nat -> exists k, held = Some k /\ In k (t_answered s) /\ ~ In k (t_queue s) /\ ~ In k (keys s)) /\
@@ -119,7 +121,10 @@ Section Safe.
     i_tab : forall tid v, tab_get tid (t_tab s) = Some v <->
               exists k, needs (Rq k) = true /\ q_tid (Rq k) = tid /\ q_name (Rq k) = v /\
                         In k (t_reg s) /\ ~ In k (t_clean s) /\ ~ In k (t_del s);
-    i_log : forall k o, In (k, o) (t_log s) -> o = Some (q_name (Rq k)) }.
+    i_log : forall k o, In (k, o) (t_log s) -> o = Some (q_name (Rq k));
+    (* conservation: every answered response is in flight, in the reader's hand, or looked up *)
+    i_cnt : forall rpc held found, nth_error (t_ths s) 1 = Some (TReader rpc held found) ->
+              length (t_answered s) = (length (t_queue s) + length (t_log s) + hand rpc)%nat }.
 
   Ltac tfields := cbn [t_lk t_inuse t_raced t_tab t_ths t_sent t_failed t_queue t_answered t_reg t_clean t_del t_log].
 
@@ -133,9 +138,11 @@ Section Safe.
     (j = 0%nat -> exists cur pc todo, t' = TWriter cur pc todo /\ WF s' cur pc todo) ->
     (j = 1%nat -> exists rpc held found, t' = TReader rpc held found /\ RF s' rpc held found) ->
     ((2 <= j)%nat -> exists k d, t' = TPeer k d) ->
+    (j = 1%nat -> forall rpc h f rpc' h' f', nth_error (t_ths s) 1 = Some (TReader rpc h f) ->
+                  t' = TReader rpc' h' f' -> hand rpc' = hand rpc) ->
     Inv2 s'.
   Proof.
-    intros HI Et Es Ef Eq Ea Er Ec Ed El Eths (t0 & Ej) Hw Hr Hp.
+    intros HI Et Es Ef Eq Ea Er Ec Ed El Eths (t0 & Ej) Hw Hr Hp Hh.
     destruct (i_w _ HI) as (cur & pc & todo & E0 & HW). destruct (i_r _ HI) as (rpc & held & found & E1 & HR).
     constructor; rewrite ?Et, ?Es, ?Ef, ?Eq, ?Ea, ?Er, ?Ec, ?Ed, ?El, ?Eths.
     - destruct (Nat.eq_dec j 0) as [->|Hne].
@@ -151,6 +158,17 @@ Section Safe.
     - apply (i_sent _ HI). - apply (i_clean _ HI). - apply (i_ans _ HI). - apply (i_q _ HI). - apply (i_l _ HI).
     - apply (i_qa _ HI). - apply (i_la _ HI).
     - apply (i_del _ HI). - apply (i_tab _ HI). - apply (i_log _ HI).
+    - intros r' h' f' Hn. destruct (Nat.eq_dec j 1) as [->|Hne].
+      + rewrite (nth_upd_same _ _ _ _ E1) in Hn. injection Hn as ->.
+        rewrite (Hh eq_refl rpc held found r' h' f' E1 eq_refl). apply (i_cnt _ HI _ _ _ E1).
+      + rewrite nth_upd_other in Hn by exact Hne. apply (i_cnt _ HI _ _ _ Hn).
+  Qed.
+
+  Lemma cnt_kept s j t' : Inv2 s -> j <> 1%nat ->
+    forall rpc h f, nth_error (upd j t' (t_ths s)) 1 = Some (TReader rpc h f) ->
+      length (t_answered s) = (length (t_queue s) + length (t_log s) + hand rpc)%nat.
+  Proof.
+    intros HI Hne rpc h f Hn. rewrite nth_upd_other in Hn by exact Hne. apply (i_cnt _ HI _ _ _ Hn).
   Qed.
 
   Ltac wf_solve := unfold WF, wdoneb, set_ths in *; tfields; cbn [In];
@@ -164,13 +182,14 @@ Section Safe.
     try tauto; try congruence; try (intuition congruence; fail).
 
   Ltac wframe HI E0 :=
-    eapply (frame _ _ 0%nat); [exact HI|reflexivity|reflexivity|reflexivity|reflexivity|reflexivity|reflexivity|reflexivity|reflexivity|reflexivity|reflexivity|eauto| |intros; discriminate|intros; lia];
+    eapply (frame _ _ 0%nat); [exact HI|reflexivity|reflexivity|reflexivity|reflexivity|reflexivity|reflexivity|reflexivity|reflexivity|reflexivity|reflexivity|eauto| |intros; discriminate|intros; lia|intros; discriminate];
     intros _; do 3 eexists; split; [reflexivity|].
 
   (* the facts of the other clauses that a writer step leaves alone *)
   Ltac keep HI := first [ apply (i_sent _ HI) | apply (i_clean _ HI) | apply (i_ans _ HI) | apply (i_q _ HI)
                         | apply (i_l _ HI) | apply (i_qa _ HI) | apply (i_la _ HI) | apply (i_del _ HI)
-                        | apply (i_tab _ HI) | apply (i_log _ HI) ].
+                        | apply (i_tab _ HI) | apply (i_log _ HI)
+                        | apply (cnt_kept _ 0%nat); [exact HI|lia] ].
 
   Lemma reader_kept s s' t' : Inv2 s ->
     t_ths s' = upd 0 t' (t_ths s) -> t_answered s' = t_answered s -> t_queue s' = t_queue s ->
@@ -327,7 +346,8 @@ Section Safe.
   Qed.
 
   Ltac rframe HI E1 :=
-    eapply (frame _ _ 1%nat); [exact HI|reflexivity|reflexivity|reflexivity|reflexivity|reflexivity|reflexivity|reflexivity|reflexivity|reflexivity|reflexivity|eauto|intros; discriminate| |intros; lia];
+    eapply (frame _ _ 1%nat); [exact HI|reflexivity|reflexivity|reflexivity|reflexivity|reflexivity|reflexivity|reflexivity|reflexivity|reflexivity|reflexivity|eauto|intros; discriminate| |intros; lia
+      |let E := fresh in let E' := fresh in intros _ ? ? ? ? ? ? E E'; rewrite E1 in E; injection E as <- <- <-; injection E' as <- <- <-; reflexivity];
     intros _; do 3 eexists; split; [reflexivity|].
 
   Ltac rcons HI :=
@@ -353,6 +373,8 @@ Section Safe.
       + do 3 eexists. split; [eapply nth_upd_same; eauto|]. unfold RF. tfields. split; [lia|split; [|intros; lia]]. intros _. exists k. auto.
       + exact Hnd.
       + intros k0 Hk0. apply (i_qa _ HI). rewrite Eq. now right.
+      + intros r h f Hn. rewrite (nth_upd_same _ _ _ _ E1) in Hn. injection Hn as <- <- <-.
+        pose proof (i_cnt _ HI _ _ _ E1) as Hc. rewrite Eq in Hc. cbn in *. lia.
     - destruct (t_lk s); [exact HI|]. rframe HI E1. unfold RF in *. tfields. split; [lia|split; [intros _; apply H13; lia|intros; lia]].
     - rframe HI E1. unfold RF in *. tfields. split; [lia|split; [intros _; apply H13; lia|intros; lia]].
     - (* the lookup: the entry of the request is there *)
@@ -371,6 +393,8 @@ Section Safe.
       + intros k0 [<-|Hk0]; [exact Hka|now apply (i_la _ HI)].
       + intros k0 Hk0. right. now apply (i_del _ HI).
       + intros k0 o [H|H]; [injection H as <- <-; reflexivity|now apply (i_log _ HI)].
+      + intros r h f Hn. rewrite (nth_upd_same _ _ _ _ E1) in Hn. injection Hn as <- <- <-.
+        pose proof (i_cnt _ HI _ _ _ E1) as Hc. cbn in *. lia.
     - rframe HI E1. unfold RF in *. tfields. split; [lia|split; [intros; lia|intros _; apply H45; lia]].
     - (* delete the matched entry *)
       destruct H45 as (k & -> & -> & Hkl & Hkd); [lia|]. cbn [held_of found_of].
@@ -379,6 +403,8 @@ Section Safe.
       + do 3 eexists. split; [eapply nth_upd_same; eauto|]. unfold RF. tfields. split; [lia|split; intros; lia].
       + intros k0 [<-|Hk0]; [exact Hkl|now apply (i_del _ HI)].
       + apply tab_after_del; auto.
+      + intros r h f Hn. rewrite (nth_upd_same _ _ _ _ E1) in Hn. injection Hn as <- <- <-.
+        pose proof (i_cnt _ HI _ _ _ E1) as Hc. cbn in *. lia.
     - (* unlock, back to ReadMessage *)
       rframe HI E1. unfold RF. tfields. split; [lia|split; intros; lia].
   Qed.
@@ -406,6 +432,8 @@ Section Safe.
       + destruct (i_qa _ HI k0 H). split; [now right|assumption].
       + split; [now left|]. intros H. apply (i_la _ HI) in H. contradiction.
     - intros k0 Hk0. right. now apply (i_la _ HI).
+    - intros r h f Hnr. rewrite nth_upd_other in Hnr by lia. pose proof (i_cnt _ HI _ _ _ Hnr) as Hc.
+      rewrite app_length. cbn. lia.
   Qed.
 
   Theorem tstep_inv2 s i : Inv2 s -> Inv2 (tstep sk reqs s i).
@@ -429,6 +457,7 @@ Section Safe.
     - intros ? [].
     - intros tid v. cbn. split; [discriminate|]. intros (k & _ & _ & _ & [] & _).
     - intros ? ? [].
+    - intros r h f Hn. cbn in Hn. injection Hn as <- <- <-. reflexivity.
   Qed.
 
   Lemma trun_inv2 order sched : NoDup order -> Inv2 (trun sk reqs (tinit reqs [order] 1) sched).
